@@ -78,6 +78,7 @@ def h1_faults(k: int, kind: int, retries: int, reuse: bool, chunks: int) -> None
         heads = _heads_seen(su, TOK)
         touched = _socks_with_bytes(su, TOK) if ct in ("h11", "forward", "socks") else None
         P.note(outcome=o.kind(), fault=fault, heads=heads, touched=touched)
+        P.reached()
         P.check(len(heads) <= 1, "request-head-seen-at-most-once", lambda: f"{sig}:head-seen-{len(heads)}-times")
         if touched is not None:
             P.check(len(touched) <= 1, "request-bytes-written-to-at-most-one-connection",
@@ -187,6 +188,7 @@ def h2_goaway(at: int, rel: int, d0: int, c0: int, retries: int) -> None:
                outcomes=[(c.name, c.status, type(c.exc).__name__ if c.exc else None) for c in callers],
                origins=[[(sid, o.path(sid)) for sid in o.order] for o in su.origins])
         sig = f"once:h2:goaway-last{(0, 1, 3, 5, 7)[r]}"
+        P.reached()
         P.check(not rt.deadlocked, "terminates", sig + ":deadlock")
         for c in callers:
             heads = _heads_seen(su, c.token)
